@@ -28,10 +28,10 @@ def gen_1d(rng, S, spline):
     trailing = gen.trailing_shape(rng, 2)
     shape = [n] + trailing
     if S == "Q":
-        xs = gen.axis_q(rng, n, rng.choice(["unit", "uniform", "geometric", "random", "dyadic", "mesh64"]))
+        xs = gen.axis_q(rng, n, rng.choice(["unit", "uniform", "geometric", "random", "dyadic", "mesh64", "evenish"]))
         flat = gen.vals_q(rng, gen.shape_size(shape), rng.choice(["int", "dyadic", "rational"]))
     else:
-        xs = gen.axis_f(rng, n, rng.choice(["unit", "uniform", "geometric", "random"]))
+        xs = gen.axis_f(rng, n, rng.choice(["unit", "uniform", "geometric", "random", "evenish"]))
         flat = [rng.uniform(-5, 5) for _ in range(gen.shape_size(shape))]
     return shape, xs, flat
 
